@@ -28,4 +28,19 @@ GROUPS = {
                    'quill/src/tree/mod.rs::names::Names::first_name', 'quill/src/tree/mod.rs::names::Namespace::new'],
         trusted=['Names<N,T> instantiated at T = u8 and N in {2,3,4}: loops are array::map / while i < N over the const generic N, unwinding assertions on (complete for these N; other N not covered)'],
         harnesses=_names_harnesses()),
+    'merge': dict(
+        crate='quill', file='quill/src/action/merge.rs', modpath='action::merge::verif_kani_merge', harness_file='merge.rs',
+        functions=['quill/src/action/merge.rs::merge_names', 'quill/src/action/merge.rs::merge_equal', 'quill/src/action/merge.rs::merge_javadoc',
+                   'quill/src/action/merge.rs::merge_javadoc_ab'],
+        trusted=['merge_names instantiated at Name = &\'static JavaStr (Kani ICE "Sub-array binding" on non-Copy names) with names drawn from the menu {absent, "a", "b"}; '
+                 'merge_equal / merge_javadoc at T = Javadoc = u8 with a harness-local node type'],
+        harnesses=[
+            dict(name='merge_equal_u8', props=['C09'], complete=True, text='merge_equal: A -> a; B -> b; AB -> Err iff a != b, else a (all u8 pairs)'),
+            dict(name='merge_javadoc_u8', props=['C09'], complete=True, text='merge_javadoc: one-sided -> that comment; two-sided -> present iff either side has one; Err iff both present and different (all Option<u8> pairs)'),
+            dict(name='merge_javadoc_ab_u8', props=['C09'], complete=True, text='merge_javadoc_ab: present iff either side has one; Err iff both present and different (all Option<u8> pairs)'),
+            dict(name='merge_names_a_only', props=['C09'], complete=True, text='merge_names(A [a0,a1]) == [a0,a1,absent] for all rows over the name menu'),
+            dict(name='merge_names_b_only', props=['C09'], complete=True, text='merge_names(B [b0,b1]) == [b0,absent,b1] for all rows over the name menu'),
+            dict(name='merge_names_both', props=['C09'], complete=True, text='merge_names(AB): Err iff first names differ; else [a0,a1,b1], and projecting onto (s,a) / (s,b) gives back A\'s / B\'s row'),
+            dict(name='canary_merge_must_fail', props=[], canary=True, text='must fail'),
+        ]),
 }
